@@ -47,7 +47,8 @@ class Ctx:
         self.seed = seed
         self.replay_in = replay
         self.repo = os.environ.get("VERIF_REPO", "/repo")
-        self.work = os.path.join(WORK, prop)
+        # runs against a scratch copy of the repository (mutation / seeded runs) get their own work directory
+        self.work = os.path.join(WORK, prop if self.repo == "/repo" else "%s-alt%d" % (prop, os.getpid()))
         if os.path.isdir(self.work):
             shutil.rmtree(self.work, ignore_errors=True)
         os.makedirs(self.work, exist_ok=True)
